@@ -213,6 +213,12 @@ def r1(ctx, facts, cg, pred):
             r.ok("%s|%s" % (key, kind), "all %d sites discharged locally" % len(sites), sites[0][2], nontrivial=False)
             continue
         rev = REVIEWED.get((key, kind))
+        if rev is None:
+            # a reviewed site that moved between a function and its own closure (`x.ok_or_else(|| .. unwrap())` <-> an explicit
+            # `match`): same function, same guard - accepted when the reviewed place itself has no such site any more
+            alt = key[:-len("{closure}")] if key.endswith("{closure}") else key + "{closure}"
+            if (alt, kind) in REVIEWED and (alt, kind) not in cen:
+                rev = REVIEWED[(alt, kind)]
         # distinct source sites (macro-instantiated bodies collapse)
         distinct = {(sp.file, sp.line, sp.col) for _, _, sp in live}
         b0, bb0, sp0 = live[0]
